@@ -275,6 +275,17 @@ def num_obs(x):
     return "nonnum:" + repr(x)
 
 
+def _cnt_of(o):
+    """the ClOrdID counter: the private attribute when it exists, else read off the current id's --<n> suffix
+    (a refactoring may drop the attribute; the checks must keep judging public behaviour)"""
+    c = getattr(o, "_clord_id_cnt", None)
+    if isinstance(c, int):
+        return c
+    import re as _re
+    m = _re.search(r"--(\d+)\Z", str(getattr(o, "clord_id", "")))
+    return int(m.group(1)) if m else -1
+
+
 def order_obs(o) -> dict:
     import enum
 
@@ -293,7 +304,7 @@ def order_obs(o) -> dict:
     return {
         "status": sv, "clord": o.clord_id, "orig": o.orig_clord_id, "oid": o.order_id,
         "price": num_obs(o.price), "qty": num_obs(o.qty), "leaves": num_obs(o.leaves_qty),
-        "cum": num_obs(o.cum_qty), "avg": num_obs(o.avg_px), "cnt": o._clord_id_cnt,
+        "cum": num_obs(o.cum_qty), "avg": num_obs(o.avg_px), "cnt": _cnt_of(o),
         "can_cancel": call(o.can_cancel), "can_replace": call(o.can_replace), "fin": call(o.is_finished),
     }
 
